@@ -22,7 +22,7 @@ BIN = os.path.join(BUILD, "bin")
 REPLAYS = os.path.join(VERIF, "replays")
 EVIDENCE = os.path.join(VERIF, "evidence")
 KNOWN = os.path.join(VERIF, "KNOWN_FINDINGS.txt")
-NCPU = os.cpu_count() or 4
+NCPU = int(os.environ.get("VERIF_JOBS") or 0) or os.cpu_count() or 4
 COQDIRS = ["lib", "gen", "model", "proofs", "props"]
 
 
